@@ -283,6 +283,20 @@ theorem parent_map_spec (ds : Dataset) (rel : Rel) (hnd : (names ds).Nodup) (h :
     ∃ r, findParent ds (g, k) q = .ok r ∧ rel.parents.lookup (g, k) = r :=
   parents_spec ds rel hnd h g k q hq
 
+/-- **node siblings are numbered exactly 0 … m-1**: every child map built for a parent (subject, predicate, graph)
+    holds pairwise different child nodes carrying the positions 0, 1, …, m-1 in order of first appearance; the walk
+    puts a child's position into the path iff its map has more than one child (definition of `walk`), so the
+    positions that appear under one property are exactly 0 … m-1 -/
+theorem node_sibling_positions (ds : Dataset) (rel : Rel) (h : newRelationship ds = .ok rel)
+    (k : QKey) (cm : ChildMap) (hm : (k, cm) ∈ rel.children) :
+    cm.map (·.2) = List.range cm.length ∧ (cm.map (·.1)).Nodup ∧ cm ≠ [] :=
+  newRelationship_children_ok ds rel h k cm hm
+
+/-- … and a position looked up for a child is below the number of children -/
+theorem node_sibling_position_lt (ds : Dataset) (rel : Rel) (h : newRelationship ds = .ok rel)
+    (k : QKey) (cm : ChildMap) (hm : (k, cm) ∈ rel.children) (c : Ref) (n : Nat) (hl : cm.lookup c = some n) : n < cm.length :=
+  childMapOK_lookup_lt cm c n (newRelationship_children_ok ds rel h k cm hm).1 hl
+
 -- non-vacuity: the documents probed against the real code
 deriving instance DecidableEq for Except
 def I (v : String) : Ref := ⟨.iri, v⟩
